@@ -119,6 +119,7 @@ def setup(ctx):
             ctx.require('route.' + r, 1, 'every documented parser route must be taken by valid strings')
             ctx.require('malformed.route.' + r, 1, 'every documented parser route must be taken by malformed strings')
         ctx.require('empty.blank-string', 1, 'blank strings (white space only) must be parsed')
+        ctx.require('long_formulas', 1, 'formulas of hundreds of groups must be parsed')
         for cls in ('unknown-symbol', 'undefined-isotope', 'undefined-charge', 'bad-isotope-tag', 'bad-ion-tag',
                     'bad-count', 'unbalanced-bracket', 'bad-density'):
             ctx.require('malformed.' + cls, MALFORMED_MIN, 'every malformation class must be exercised')
@@ -235,6 +236,9 @@ def check_string(ctx, case):
     denot = _denot_from_case(case)
     route = case.get('route', 'formula')
     ctx.count('route.' + route)
+    if case.get('long'):
+        ctx.count('long_formulas')
+        ctx.observe('long_formulas.groups', case['long'])
     via = '' if route == 'formula' else ' [route %s]' % route
     try:
         f = _parse(text, T, route)
@@ -444,6 +448,9 @@ def generate(ctx):
                                         'count': [cs, str(Fraction(cs + '0' if cs.endswith('.') else ('0' + cs if cs.startswith('.') else cs)))],
                                         'stride': 1 if ctx.thorough() else 1}
             i += 1
+    # 1b. very long formulas
+    for item in _long_cases(ctx, rng, tables):
+        yield item
     # 2. random derivation trees
     n = ctx.scale(700, 9000)
     gens = {t: FormulaGen(T, rng, ws_patterns=0.3) for t, T in tables.items()}
@@ -484,6 +491,26 @@ def generate(ctx):
                 if rng.random() < 0.3:
                     mc['route'] = rng.choice(ROUTES[1:])
                 yield 'malformed', mc
+
+
+def _long_cases(ctx, rng, tables):
+    """Very long formulas: hundreds to thousands of groups in a row (a sum of many hydrates, a printed mixture).  The
+    grammar puts no bound on the number of groups, so neither may the parser (a parser that recurses per group runs
+    out of stack at a few hundred)."""
+    from ..gen.formulas import FormulaGen
+    sizes = [130, 300, 800] + ([2000, 5000] if ctx.thorough() else [])
+    for n in sizes:
+        tname = 'private' if rng.random() < 0.3 else 'public'
+        g = FormulaGen(tables[tname], rng, ws_patterns=0.0)
+        node = g.compound(0, rng.choice([0, 0, 1]), ngroups=n)
+        if rng.random() < 0.3:
+            g.with_density(node)
+        case, _ = _case_of(node, tname, node.depth)
+        case['shape'] = 'long:%d' % n
+        case['long'] = n
+        if rng.random() < 0.3:
+            case['route'] = rng.choice(ROUTES[1:])
+        yield 'string', case
 
 
 def _safe_text(node):
